@@ -1,5 +1,6 @@
 import Pi2.MM.Compressed
 import Pi2.Gen.MMDigits
+import Pi2.MM.ImportTie
 /-!
 # C15 — Metamath compressed proofs: numbers, steps, the label table
 -/
@@ -302,6 +303,127 @@ example : MM.encodeNum 120 = "YT".toList := (encode_decode _ _ (by decide)).1
 example : MM.encodeNum 121 = "UUA".toList := (encode_decode _ _ (by decide)).1
 example : MM.encodeNum 620 = "YYT".toList := (encode_decode _ _ (by decide)).1
 example : MM.encodeNum 621 = "UUUA".toList := (encode_decode _ _ (by decide)).1
+
+/-! ## 8: the TEXT of `_import_proof` (`Pi2/Gen/ImportProof.lean`, regenerated from converter.py by `vlib/transimport.py`,
+character level) is the model (`Pi2/MM/Compressed.lean`, token level) — see `Pi2/MM/ImportTie.lean` -/
+
+open ImpSup in
+/-- the generated `convert_to_number` is the model's, on every word -/
+theorem convert_to_number_text_is_the_model (word : List Char) :
+    Gen.ImportProof.convert_to_number word = MM.convertToNumber word :=
+  ImportTie.convert_to_number_eq word
+
+open ImpSup in
+/-- the generated main loop is the model's `tokenize`, on every letter string -/
+theorem main_loop_text_is_the_model (letters : List Char) (d : PyDict Nat Str) :
+    (Gen.ImportProof.import_proof_for1 letters ⟨d, []⟩ []).map (·.1)
+      = (MM.tokenize letters []).map (Gen.ImportProof.Proof.mk d) :=
+  ImportTie.main_loop_eq letters d
+
+/-- Appendix B, for the GENERATED decoder: decoding the book's encoding of `n ≥ 1` gives `n` … -/
+theorem generated_decode_encode (n : Nat) (hn : 1 ≤ n) :
+    Gen.ImportProof.convert_to_number (MM.encodeNum n) = some n := by
+  rw [ImportTie.convert_to_number_eq]; exact decode_encode n hn
+
+/-- … and a word the generated decoder accepts is the book's encoding of its value (one word per number) -/
+theorem generated_encode_decode (w : List Char) (n : Nat) :
+    Gen.ImportProof.convert_to_number w = some n → MM.encodeNum n = w ∧ 1 ≤ n := by
+  rw [ImportTie.convert_to_number_eq]; exact encode_decode w n
+
+open ImpSup in
+/-- … and the generated main loop reads a sequence of encoded steps (`Z` = 0) back as written -/
+theorem generated_steps_roundtrip (steps : List (Option Nat)) (h : ∀ n, some n ∈ steps → 1 ≤ n) (d : PyDict Nat Str) :
+    (Gen.ImportProof.import_proof_for1 (steps.flatMap MM.encodeStep) ⟨d, []⟩ []).map (·.1)
+      = some ⟨d, steps.map MM.stepVal⟩ := by
+  rw [ImportTie.main_loop_eq, tokenize_steps steps h]; rfl
+
+open ImpSup ImportTie in
+/-- **the whole `_import_proof`, on what the parser stores**: `statement.proof` is `' '.join(tokens)`; when the tokens are `(`,
+labels (non-empty, no whitespace, no `)`), `)`, and further tokens without whitespace, the generated character-level code on the
+joined string returns what the token-level model returns on the tokens (the table numbered from 1).
+`floats` = `self._floating_patterns`, `vars` = `statement.get_metavariables()`. -/
+theorem import_proof_text_is_the_model (floats vars labels body : List String)
+    (hl : ∀ l ∈ labels, LabelOK l.toList) (hb : ∀ b ∈ body, ∀ c ∈ b.toList, pyIsSpace c = false) :
+    Gen.ImportProof.import_proof ⟨floats.map String.toList⟩ ⟨vars.map String.toList,
+        some (joinToks (("(" :: labels ++ ")" :: body).map String.toList))⟩
+      = (MM.importProof floats vars ("(" :: labels ++ ")" :: body)).map ofModel :=
+  import_proof_parsed floats vars labels body hl hb
+
+open ImpSup ImportTie in
+/-- the same for every layout the character loops tolerate: anything without `(` in front, any run of whitespace behind `(`,
+ONE (arbitrary) whitespace character behind every label, anything behind `)` (its non-blank characters are the letters) -/
+theorem import_proof_text_is_the_model_any_layout (floats vars : List String) (labels : List (String × Char))
+    (body : List String) (pre ws tail : List Char)
+    (hpre : ∀ c ∈ pre, c ≠ '(') (hws : ∀ c ∈ ws, pyIsSpace c = true)
+    (hl : ∀ p ∈ labels, LabelOK p.1.toList ∧ pyIsSpace p.2 = true)
+    (hbody : body.flatMap String.toList = tail.filter (fun c => !pyIsSpace c)) :
+    Gen.ImportProof.import_proof ⟨floats.map String.toList⟩ ⟨vars.map String.toList,
+        some (pre ++ '(' :: (ws ++ (flat (labels.map fun p => (p.1.toList, p.2)) ++ ')' :: tail)))⟩
+      = (MM.importProof floats vars ("(" :: labels.map (·.1) ++ ")" :: body)).map ofModel :=
+  import_proof_layout floats vars labels body pre ws tail hpre hws hl hbody
+
+open ImpSup ImportTie in
+/-- strings without `(` (uncompressed proofs), `None` and `''`: the Python code raises, the model rejects -/
+theorem import_proof_text_rejects_uncompressed (floats vars toks : List String)
+    (h : ∀ c ∈ joinToks (toks.map String.toList), c ≠ '(') :
+    Gen.ImportProof.import_proof ⟨floats.map String.toList⟩ ⟨vars.map String.toList, some (joinToks (toks.map String.toList))⟩ = none
+      ∧ MM.importProof floats vars toks = none := by
+  refine ⟨import_proof_no_paren _ _ _ h, ?_⟩
+  cases toks with
+  | nil => simp [MM.importProof]
+  | cons t ts =>
+    apply model_needs_open
+    intro e
+    subst e
+    have : '(' ∈ joinToks (("(" :: ts).map String.toList) := by
+      rw [List.map_cons, joinToks_cons]
+      have : ("(" : String).toList = ['('] := by decide
+      simp [this]
+    exact h _ this rfl
+
+theorem encodeNum_no_space (n : Nat) : ∀ c ∈ MM.encodeNum n, ImpSup.pyIsSpace c = false := by
+  intro c hc
+  obtain ⟨_, hd⟩ := hiDigits_spec ((n - 1) / 20)
+  unfold encodeNum at hc
+  rcases List.mem_append.mp hc with h | h
+  · obtain ⟨d, hdm, rfl⟩ := List.mem_map.mp h
+    have := hd d (List.mem_reverse.mp hdm)
+    have : d = 1 ∨ d = 2 ∨ d = 3 ∨ d = 4 ∨ d = 5 := by omega
+    rcases this with rfl | rfl | rfl | rfl | rfl <;> decide
+  · simp only [List.mem_singleton] at h
+    subst h
+    have : (n - 1) % 20 + 1 = 1 ∨ (n - 1) % 20 + 1 = 2 ∨ (n - 1) % 20 + 1 = 3 ∨ (n - 1) % 20 + 1 = 4 ∨ (n - 1) % 20 + 1 = 5 ∨
+        (n - 1) % 20 + 1 = 6 ∨ (n - 1) % 20 + 1 = 7 ∨ (n - 1) % 20 + 1 = 8 ∨ (n - 1) % 20 + 1 = 9 ∨ (n - 1) % 20 + 1 = 10 ∨
+        (n - 1) % 20 + 1 = 11 ∨ (n - 1) % 20 + 1 = 12 ∨ (n - 1) % 20 + 1 = 13 ∨ (n - 1) % 20 + 1 = 14 ∨
+        (n - 1) % 20 + 1 = 15 ∨ (n - 1) % 20 + 1 = 16 ∨ (n - 1) % 20 + 1 = 17 ∨ (n - 1) % 20 + 1 = 18 ∨
+        (n - 1) % 20 + 1 = 19 ∨ (n - 1) % 20 + 1 = 20 := by omega
+    rcases this with h | h | h | h | h | h | h | h | h | h | h | h | h | h | h | h | h | h | h | h <;> (rw [h]; decide)
+
+open ImpSup ImportTie in
+/-- **the text of `_import_proof` meets the specification**: on the compressed proof `( labels ) <encoded steps>` (as the parser
+stores it) of a statement whose variables all have `$f #Pattern` statements, it returns the table
+"mandatory hypotheses in DATABASE order, then the listed labels", numbered from 1, and the steps as written (`Z` = 0). -/
+theorem import_proof_text_meets_the_specification (floats vars labels : List String) (steps : List (Option Nat))
+    (hv : ∀ v ∈ vars, v ∈ floats) (hl : ∀ l ∈ labels, LabelOK l.toList) (hs : ∀ n, some n ∈ steps → 1 ≤ n) :
+    Gen.ImportProof.import_proof ⟨floats.map String.toList⟩ ⟨vars.map String.toList,
+        some (joinToks (("(" :: labels ++ ")" :: [String.ofList (steps.flatMap MM.encodeStep)]).map String.toList))⟩
+      = some ⟨numbered 1 (((floats.filter (vars.contains ·)).map (· ++ "-is-pattern") ++ labels).map String.toList),
+          steps.map MM.stepVal⟩ := by
+  have hb : ∀ b ∈ [String.ofList (steps.flatMap MM.encodeStep)], ∀ c ∈ b.toList, pyIsSpace c = false := by
+    intro b hb c hc
+    simp only [List.mem_singleton] at hb
+    subst hb
+    rw [String.toList_ofList] at hc
+    obtain ⟨st, _, hst⟩ := List.mem_flatMap.mp hc
+    cases st with
+    | none => simp only [encodeStep, List.mem_singleton] at hst; subst hst; decide
+    | some n => exact encodeNum_no_space n c hst
+  rw [import_proof_parsed floats vars labels _ hl hb]
+  have hne : ∀ l ∈ labels, l ≠ ")" := fun l h => label_ne_close l (hl l h)
+  simp only [importProof, List.cons_append, ImportTie.parseLabels_spec labels _ [] hne, no_extra floats vars hv,
+    Option.bind_eq_bind, Option.bind_some, List.reverse_nil, List.nil_append, List.flatMap_cons, List.flatMap_nil,
+    List.append_nil, String.toList_ofList, tokenize_steps steps hs, List.mergeSort_nil, Option.pure_def, Option.map_some,
+    ofModel]
 
 end C15
 
